@@ -10,6 +10,11 @@ class ToGFA1:
         "The path name is a placeholder\t"+
         "Line: {}".format(self))
     a.append(self.name)
+    for oline in self.captured_edges:
+      if not oline.line.is_dovetail():
+        # a GFA1 path runs over links: a walk over a containment or an
+        # internal alignment has no GFA1 counterpart
+        return []
     segment_names = []
     for oline in self.captured_segments:
       gfapy.Field._validate_gfa_field(oline.name, "segment_name_gfa1")
